@@ -314,6 +314,21 @@ func concHarnesses() []concArg {
 			{{K: "READDIR", H: "root/d", Cnt: 1 << 20}}, {{K: "CREATE", H: "root/d", N: "x"}, {K: "REMOVE", H: "root/d", N: "p"}}, {{K: "SYMLINK", H: "root/d", N: "y", Target: "t"}}}},
 		{Name: "create-write-lookup-read", DiskSize: 3000, Clients: [][]fsx.Op{
 			{{K: "CREATE", H: "root", N: "n"}, {K: "WRITE", H: "root/n", Off: 0, Cnt: 100, Pat: 0x53, Stable: 2}}, {{K: "LOOKUP", H: "root", N: "n", As: "l"}, {K: "READ", H: "l", Off: 0, Cnt: 100}}}},
+		// a name whose inode number is below its directory's (recycled number): REMOVE takes the abort / ordered re-lock
+		// path, and in its gap the name is re-bound to a new object
+		{Name: "remove-inverted-rename-create", DiskSize: 3000, Setup: inv(fsx.Op{K: "CREATE", H: "root/d2", N: "x"}), Clients: [][]fsx.Op{
+			{{K: "REMOVE", H: "root/d2", N: "x"}}, {{K: "RENAME", H: "root/d2", N: "x", H2: "root/d2", N2: "z"}, {K: "CREATE", H: "root/d2", N: "x", As: "x2"}}}},
+		{Name: "lookup-inverted-rename-create", DiskSize: 3000, Setup: inv(fsx.Op{K: "CREATE", H: "root/d2", N: "x"}), Clients: [][]fsx.Op{
+			{{K: "LOOKUP", H: "root/d2", N: "x", As: "l"}, {K: "GETATTR", H: "l"}}, {{K: "RENAME", H: "root/d2", N: "x", H2: "root/d2", N2: "z"}, {K: "MKDIR", H: "root/d2", N: "x", As: "x2"}}}},
+		// RENAME over an existing target aborts and re-locks; in that gap another client's request aborts after having
+		// modified the directory (its cached inode is dropped) and a further one updates the directory
+		{Name: "rename-over-abort-create-one-dir", DiskSize: 3000, Setup: []fsx.Op{{K: "MKDIR", H: "root", N: "d"}, {K: "CREATE", H: "root/d", N: "a"}, {K: "CREATE", H: "root/d", N: "b"}}, Clients: [][]fsx.Op{
+			{{K: "RENAME", H: "root/d", N: "a", H2: "root/d", N2: "b"}}, {{K: "CREATE", H: "root/d", N: nameOfLen(200, 'q')}, {K: "CREATE", H: "root/d", N: "c"}, {K: "LOOKUP", H: "root/d", N: "a"}}}},
+		{Name: "rename-over-abort-create-two-dirs", DiskSize: 3000, Setup: inv(fsx.Op{K: "CREATE", H: "root/d1", N: "a"}, fsx.Op{K: "CREATE", H: "root/d2", N: "b"}), Clients: [][]fsx.Op{
+			{{K: "RENAME", H: "root/d1", N: "a", H2: "root/d2", N2: "b"}}, {{K: "MKDIR", H: "root/d2", N: nameOfLen(200, 'q')}, {K: "CREATE", H: "root/d2", N: "c"}}, {{K: "SYMLINK", H: "root/d1", N: nameOfLen(200, 'q'), Target: "t"}, {K: "CREATE", H: "root/d1", N: "c"}}}},
+		// a write beyond the old end of a file whose truncation is still being finished in the background
+		{Name: "truncate-writebeyond-big", DiskSize: 3000, Probe: bigProbe, Setup: []fsx.Op{{K: "CREATE", H: "root", N: "big"}, {K: "WRITE", H: "root/big", Off: 0, Cnt: 5 * 4096, Pat: 0x30, Stable: 2}, {K: "WRITE", H: "root/big", Off: 600 * 4096, Cnt: 1, Pat: 0x31, Stable: 2}}, Clients: [][]fsx.Op{
+			{{K: "SETATTR", H: "root/big", Size: 0}}, {{K: "WRITE", H: "root/big", Off: 700 * 4096, Cnt: 1, Pat: 0x33, Stable: 2}, {K: "READ", H: "root/big", Off: 0, Cnt: 8192}}}},
 		{Name: "eviction", DiskSize: 3000, ICacheSz: 6, Setup: []fsx.Op{{K: "CREATE", H: "root", N: "a"}, {K: "CREATE", H: "root", N: "b"}, {K: "CREATE", H: "root", N: "c"}, {K: "MKDIR", H: "root", N: "d"}, {K: "CREATE", H: "root/d", N: "e"}, {K: "CREATE", H: "root/d", N: "f"}}, Clients: [][]fsx.Op{
 			{{K: "GETATTR", H: "root/a"}, {K: "WRITE", H: "root/b", Off: 0, Cnt: 10, Pat: 0x41, Stable: 2}}, {{K: "LOOKUP", H: "root/d", N: "e"}, {K: "GETATTR", H: "root/b"}}, {{K: "RENAME", H: "root/d", N: "f", H2: "root", N2: "c"}, {K: "LOOKUP", H: "root", N: "c"}}}},
 	}
